@@ -18,7 +18,7 @@ Definition thr_step (t : thr) : option thr :=
   | [] => None
   | a :: r =>
       match a with
-      | AAcq l w => Some {| t_held := (l, w) :: t_held t; t_frames := t_frames t; t_path := r |}
+      | AAcq l w | ATryAcq l w => Some {| t_held := (l, w) :: t_held t; t_frames := t_frames t; t_path := r |}
       | ARel l w => match release (t_held t) l w with
                     | Some h' => Some {| t_held := h'; t_frames := t_frames t; t_path := r |}
                     | None => None end
@@ -194,8 +194,10 @@ Qed.
 
 (** the exclusion is kept by every step that respects the lock semantics: a thread acquires only when no other thread
     holds the lock in a conflicting mode (releases and all other atoms only shrink or keep the sets held) *)
+Definition acquires (t : thr) : option (lockid * bool) :=
+  match t_path t with AAcq l w :: _ | ATryAcq l w :: _ => Some (l, w) | _ => None end.
 Definition may_step (ts : list thr) (i : nat) (t : thr) : Prop :=
-  match wants t with
+  match acquires t with
   | Some (l, w) => forall j tj, j <> i -> nth_error ts j = Some tj -> conflicts (t_held tj) l w = false
   | None => True
   end.
@@ -245,10 +247,11 @@ Theorem exclusive_step ts i t t' :
 Proof.
   intros Hex Hi Hmay Hst.
   (* the locks held after the step: those held before, plus the one acquired *)
-  assert (Hheld : forall x, In x (t_held t') -> In x (t_held t) \/ wants t = Some x).
-  { intros x Hx. unfold thr_step in Hst. unfold wants. destruct t as [h fr p]. cbn [t_held t_frames t_path] in *.
+  assert (Hheld : forall x, In x (t_held t') -> In x (t_held t) \/ acquires t = Some x).
+  { intros x Hx. unfold thr_step in Hst. unfold acquires. destruct t as [h fr p]. cbn [t_held t_frames t_path] in *.
     destruct p as [|a r]; [discriminate|].
     destruct a; try discriminate; try (injection Hst as <-; cbn [t_held] in Hx; left; exact Hx).
+    - injection Hst as <-. cbn [t_held] in Hx. destruct Hx as [<-|Hx]; [right; reflexivity|left; exact Hx].
     - injection Hst as <-. cbn [t_held] in Hx. destruct Hx as [<-|Hx]; [right; reflexivity|left; exact Hx].
     - destruct (release h l w) as [h'|] eqn:Er; [|discriminate]. injection Hst as <-. left. eapply release_subset; eassumption.
     - destruct fr as [|top rest]; [discriminate|]. injection Hst as <-. left. exact Hx.
